@@ -142,7 +142,7 @@ def rq_post(c):
 
 contract(F, 'OscInterface._handle_request', props=('C18',), params={'self': 'self', 'data': 'obj', 'address': 'obj'},
          ensures=[('parsed-once;a-datagram-that-does-not-parse-dispatches-nothing;only-parser-or-dispatch-can-fail', rq_post)],
-         loops={0: Loop(inv=rq_pass, over=rq_over, early_exit=True)},
+         loops={0: Loop(inv=rq_pass, over=rq_over)},
          fields={'OscInterface': {}, 'Main': MAIN_FIELDS, 'TimeThread': TT_FIELDS}, class_modules={'OscInterface': F},
          hooks={'getattr': rq_getattr, 'construct': rq_construct, 'compare': rq_compare, 'ext': rq_ext},
          opts={'star_in_display_to_ghost': True, 'exceptions_stay_inside': True}, modifies=[], native=False,
